@@ -147,6 +147,60 @@ theorem setMaxSize_bounded (t : DynTab) (v : Nat) (h : Consistent t) :
   rw [hm] at this
   exact this
 
+theorem evict_go_exact (t : DynTab) (ents : List Field) (size : Nat) (h : size = sumSize ents) :
+    ∃ k, (DynTab.evict.go t ents size).1 = ents.drop k ∧ ∀ j, j < k → sumSize (ents.drop j) > t.maxSize := by
+  induction ents generalizing size with
+  | nil => exact ⟨0, by simp [DynTab.evict.go], by intro j hj; omega⟩
+  | cons e r ih =>
+    unfold DynTab.evict.go
+    by_cases hs : size > t.maxSize
+    · simp only [hs, if_true]
+      obtain ⟨k, hk, hall⟩ := ih (size - e.size) (by simp [sumSize] at h ⊢; omega)
+      refine ⟨k + 1, by simpa using hk, ?_⟩
+      intro j hj
+      cases j with
+      | zero => simpa [← h] using hs
+      | succ j => simpa using hall j (by omega)
+    · simp only [hs, if_false]
+      exact ⟨0, rfl, by intro j hj; omega⟩
+
+/-- EVICTION IS EXACT (RFC 7541 §4.4): what remains after adding an entry is the LONGEST suffix (most recent entries) of
+"old entries followed by the new one" that fits the limit — nothing more is evicted than necessary; in particular an
+entry whose size equals the limit stays, alone, and an entry larger than the limit empties the table. -/
+theorem add_exact (t : DynTab) (f : Field) (h : Consistent t) :
+    ∃ k, (t.add f).ents = (t.ents ++ [f]).drop k ∧ sumSize ((t.ents ++ [f]).drop k) ≤ t.maxSize ∧
+      ∀ j, j < k → sumSize ((t.ents ++ [f]).drop j) > t.maxSize := by
+  have hc : t.size + f.size = sumSize (t.ents ++ [f]) := by
+    simp [Consistent, sumSize] at h ⊢; omega
+  obtain ⟨k, hk, hall⟩ := evict_go_exact { t with ents := t.ents ++ [f], size := t.size + f.size } (t.ents ++ [f]) _ hc
+  have hb := evict_go_spec t.maxSize { t with ents := t.ents ++ [f], size := t.size + f.size } (t.ents ++ [f]) _ hc
+  refine ⟨k, ?_, ?_, hall⟩
+  · simpa [DynTab.add, DynTab.evict] using hk
+  · rw [← hk, ← hb.1]; exact hb.2
+
+/-- an entry that exactly fills the table is kept -/
+theorem exact_fit_kept (t : DynTab) (f : Field) (h : Consistent t) (hf : f.size = t.maxSize) : (t.add f).ents = [f] := by
+  obtain ⟨k, hk, hle, hall⟩ := add_exact t f h
+  have hlen : k = t.ents.length := by
+    have hk1 : ¬ k > t.ents.length := by
+      intro hgt
+      have := hall t.ents.length hgt
+      simp [sumSize] at this; omega
+    have hk2 : ¬ k < t.ents.length := by
+      intro hlt
+      rw [List.drop_append_of_le_length (by omega)] at hle
+      have hne : (t.ents.drop k) ≠ [] := by
+        intro hnil
+        have := congrArg List.length hnil
+        simp at this; omega
+      have hpos : sumSize (t.ents.drop k) ≥ 32 := by
+        cases hd : t.ents.drop k with
+        | nil => exact absurd hd hne
+        | cons a r => simp [sumSize, Field.size]; omega
+      simp [sumSize] at hle hpos; omega
+    omega
+  rw [hk, hlen]; simp
+
 /-- a size update from the wire larger than the permitted maximum is rejected (RFC 7541 §6.3) -/
 theorem size_update_limited (d : Dec) (b : UInt8) (buf : Bytes) (size : Nat) (rest : Bytes)
     (hb : 32 ≤ b.toNat ∧ b.toNat < 64) (hv : readVarInt 5 (b :: buf) = .ok size rest) (hs : size > d.tab.allowedMax)
